@@ -849,3 +849,17 @@ def field_representation(ctx):
                                 'objects that took this path carry the field in another representation: serialisation / storing fails or differs')
     ctx.saw('%d typed writes to attributes of Transaction / Input / Output / Block compared' % n)
     ctx.floor(n, 60, 'typed attribute writes')
+
+
+@PROP.obligation('C06.fixed-width')
+def fixed_width_mods(ctx):
+    """Every int.to_bytes of transactions.py / blocks.py (version, locktime, sequence, value, outpoint index, header fields) uses a width that does not depend on the value."""
+    from .common_width import fixed_width_modules as run
+    run(ctx, ['transactions', 'blocks'], 'a field with leading zero bytes is written shorter than its wire width: the serialisation no longer parses back', 15)
+
+
+@PROP.obligation('C06.explicit-falsy')
+def explicit_falsy(ctx):
+    """A parameter of transactions.py / blocks.py / scripts.py that gets its default through a truthiness test is never passed an explicit falsy constant by a caller inside the package (version 0, locktime 0, index 0, empty script are values)."""
+    from .common_falsy import falsy_defaults as run
+    run(ctx, ['transactions', 'blocks', 'scripts'], 'a field given as 0 / empty on purpose is replaced by a default: the object no longer serialises to the bytes it was parsed from')
